@@ -219,6 +219,8 @@ class Run(object):
         r.label('op:' + op)
         if ood:
             r.label('ood:' + ood)
+        if op == 'binop':
+            r.label('binop-operand:' + step['args']['other'][0])
         if before.ioapi_degraded:
             r.label('on-degraded-ioapi')
             klass += '/degraded'
@@ -309,11 +311,17 @@ def _has_step(journal, op):
 # fixed since this check was written (regressions pinned as
 # replays/C01/fixed-*.json): reorder-dims a78683a, coords-missing ebd8f12,
 # rmsing-char 39f156d, ioapi-slice-rowcol 1c3f9f7, eval-masked-scalar 1965be0
-known.register('C01-char-empty-scalar', lambda spec, f: (
-    f.clause == 'in-domain-raised' and 'charvar' in _ctx(f) and
-    f.where in ('ValueError@core/_files.py:sliceDimensions',
-                'ValueError@core/_files.py:removeSingleton') and
-    'maximum number of dimension of 0' in f.detail))
+# C01-char-empty-scalar: fixed in /repo ebc2dd0
+def _nonconforming_binop(journal):
+    return any(st_.get('op') == 'binop' and
+               st_.get('ood') == 'binop-nonconforming'
+               for st_ in journal.get('steps', []))
+
+
+known.register('C01-pncbo-broadcast-up', lambda spec, f: (
+    f.clause == 'malformed' and f.klass.split('/')[0].startswith('binop:')
+    and not f.klass.endswith('/live') and 'result of binop' in f.detail and
+    ' has shape ' in f.detail and _nonconforming_binop(spec)))
 
 known.register('C01-ioapi-var-redim', lambda spec, f: (
     f.clause == 'malformed' and 'baddims=VAR ' in f.detail and
